@@ -25,7 +25,7 @@ template<class T> static T qdist(glm::qua<T, glm::defaultp> const& a, glm::qua<T
   T d1 = std::max(std::max(std::abs(a.w - b.w), std::abs(a.x - b.x)), std::max(std::abs(a.y - b.y), std::abs(a.z - b.z)));
   T d2 = std::max(std::max(std::abs(a.w + b.w), std::abs(a.x + b.x)), std::max(std::abs(a.y + b.y), std::abs(a.z + b.z)));
   return std::min(d1, d2); }
-template<int C, int R, class T> static T mdist(glm::mat<C, R, T, glm::defaultp> const& a, glm::mat<C, R, T, glm::defaultp> const& b) {
+template<glm::length_t C, glm::length_t R, class T> static T mdist(glm::mat<C, R, T, glm::defaultp> const& a, glm::mat<C, R, T, glm::defaultp> const& b) {
   T d = 0; for (int c = 0; c < C; ++c) for (int r = 0; r < R; ++r) d = std::max(d, std::abs(a[c][r] - b[c][r])); return d; }
 
 int main(int argc, char** argv) {
